@@ -218,6 +218,18 @@ def main(tier, seed):
             inner.items = [iop]
             prog.modules.append(inner)
         decorate(prog, rng, i)
+        if i % 4 == 2:
+            # a fixed name (no {0}) pinned on an impl block with a single method, under whatever the module says: the impl's name is inherited
+            # by its method like any other pattern (seed C06-j: only placeholder patterns were handed down)
+            import spec as spec_
+            pin = spec_.Opaque("VfPin")
+            pm = spec_.Method("only", ("ref", None), [("x", ("prim", "u8"))], ("prim", "u32"))
+            pm.owner = pin
+            pin.methods.append(pm)
+            pin.abi_pat, pin.impl_disable, pm.abi_pat, pm.disable = None, None, None, None
+            pin.impl_pat = "pinned_sym_%d" % i
+            pin.impl_attrs = [ar(rng) % pin.impl_pat]
+            prog.modules[0].items.append(pin)
         if i % 5 == 3:
             outer, inner = prog.modules[0], prog.modules[-1]
             if outer.abi_pat is None:
